@@ -1639,6 +1639,13 @@ class Evaluator:
                 return sp.ceiling(a[0])
             if short == 'arctan2' and numeric and len(a) == 2:
                 return sp.Function('atan2')(a[0], a[1])
+            if short in ('max', 'min') and len(a) == 2 and all(
+                    isinstance(x, Tup) and len(x.items) == 2 and all(is_num(i) for i in x.items) for x in a) and not kwargs:
+                # tuples compare lexicographically; min/max return the first of equal operands
+                (u0, u1), (v0, v1) = a[0].items, a[1].items
+                v_lt_u = BoolT('or', (Cmp('<', v0, u0), BoolT('and', (Cmp('==', v0, u0), Cmp('<', v1, u1)))))
+                u_lt_v = BoolT('or', (Cmp('<', u0, v0), BoolT('and', (Cmp('==', u0, v0), Cmp('<', u1, v1)))))
+                return mk_ite(v_lt_u if short == 'min' else u_lt_v, a[1], a[0])
             if short in ('max', 'min'):
                 items = a
                 if len(a) == 1 and isinstance(a[0], Tup):
@@ -1671,6 +1678,11 @@ class Evaluator:
                         tuple(Tup(i.items, 'array') if isinstance(i, Tup) else i for i in a[0].items), 'array')
                 if short != 'array' and not kwargs:
                     return a[0]
+            if short == 'tensordot' and len(a) == 2 and isinstance(a[0], Tup) and isinstance(a[1], Tup) and (
+                    kwargs.get('axes') == sp.Integer(1)):
+                r = _matmul(a[0], a[1])      # contraction of the last axis of a with the first of b
+                if r is not None:
+                    return r
             if short in ('matmul', 'dot') and len(a) == 2 and isinstance(a[0], Tup) and isinstance(a[1], Tup):
                 r = _matmul(a[0], a[1])
                 if r is not None:
